@@ -174,8 +174,12 @@ class MetricReceiver(CarbonServerProtocol, TimeoutMixin):
       return
     if datapoint[1] != datapoint[1]:  # filter out NaN values
       return
+    try:
+      timestamp = int(datapoint[0])
+    except (ValueError, OverflowError):  # NaN or infinite timestamp, drop like any other invalid datapoint
+      return
     # use current time if none given: https://github.com/graphite-project/carbon/issues/54
-    if int(datapoint[0]) == -1:
+    if timestamp == -1:
       datapoint = (time.time(), datapoint[1])
     res = settings.MIN_TIMESTAMP_RESOLUTION
     if res:
@@ -189,13 +193,14 @@ class MetricLineReceiver(MetricReceiver, LineOnlyReceiver):
   delimiter = b'\n'
 
   def lineReceived(self, line):
-    if sys.version_info >= (3, 0):
-      line = line.decode('utf-8')
-
     try:
+      if sys.version_info >= (3, 0):
+        line = line.decode('utf-8')
       metric, value, timestamp = line.strip().split()
       datapoint = (float(timestamp), float(value))
     except ValueError:
+      if isinstance(line, bytes):  # not valid utf-8
+        line = line.decode('utf-8', 'replace')
       if len(line) > 400:
         line = line[:400] + '...'
       log.listener('invalid line received from client %s, ignoring [%s]' %
@@ -217,16 +222,18 @@ class MetricDatagramReceiver(MetricReceiver, DatagramProtocol):
 
   def datagramReceived(self, data, addr):
     (host, _) = addr
-    if sys.version_info >= (3, 0):
-      data = data.decode('utf-8')
 
     for line in data.splitlines():
       try:
+        if sys.version_info >= (3, 0):
+          line = line.decode('utf-8')
         metric, value, timestamp = line.strip().split()
         datapoint = (float(timestamp), float(value))
 
         self.metricReceived(metric, datapoint)
       except ValueError:
+        if isinstance(line, bytes):  # not valid utf-8
+          line = line.decode('utf-8', 'replace')
         if len(line) > 400:
           line = line[:400] + '...'
         log.listener('invalid line received from %s, ignoring [%s]' %
@@ -248,10 +255,13 @@ class MetricPickleReceiver(MetricReceiver, Int32StringReceiver):
     try:
       datapoints = self.unpickler.loads(data)
     # Pickle can throw a wide range of exceptions
-    except (pickle.UnpicklingError, ValueError, IndexError, ImportError,
-            KeyError, EOFError) as exc:
+    except Exception as exc:
       log.listener('invalid pickle received from %s, error: "%s", ignoring' % (
                    self.peerName, exc))
+      return
+
+    if not isinstance(datapoints, (list, tuple)):
+      log.listener('invalid pickle received from %s, not a list, ignoring' % self.peerName)
       return
 
     for raw in datapoints:
@@ -263,12 +273,11 @@ class MetricPickleReceiver(MetricReceiver, Int32StringReceiver):
 
       try:
         datapoint = (float(value), float(timestamp))  # force proper types
-      except (ValueError, TypeError):
+        # convert python2 unicode objects to str/bytes
+        if not isinstance(metric, str):
+          metric = metric.encode('utf-8')
+      except (ValueError, TypeError, OverflowError, AttributeError):
         continue
-
-      # convert python2 unicode objects to str/bytes
-      if not isinstance(metric, str):
-        metric = metric.encode('utf-8')
 
       self.metricReceived(metric, datapoint)
 
